@@ -143,6 +143,12 @@ func (m *UWModel) Apply(e DEntry) string {
 		return ClUnsupported
 	}
 	if len(path) == 0 {
+		if e.Type == '5' {
+			// a directory entry for the top of the archive ("./", ".", "/"): it prescribes the
+			// attributes of the destination directory itself
+			m.Root.Explicit, m.Root.Mode, m.Root.MtimeNs, m.Root.ExplGen = true, e.Mode, e.MtimeNs, m.Gen
+			return ClOK
+		}
 		return ClRoot
 	}
 	// walk parents
